@@ -6,7 +6,7 @@ from typing import Any
 from vmc.checks.common import replay_program, run_programs
 from vmc.engine import Action, gate, make_step, make_workflow, stream_repr, task_outcome
 from vmc.events import A, Done, MyStop, Prog, Work
-from vmc.progs import ENGINE_ASSUMPTIONS, Oracle, Spec, to_programs, wf_chain, wf_collect, wf_early_stop, wf_fan
+from vmc.progs import ENGINE_ASSUMPTIONS, Oracle, Spec, resp_scripts, to_programs, wf_chain, wf_collect, wf_early_stop, wf_fan, wf_wait
 from workflows import catch_error
 from workflows.errors import WorkflowCancelledByUser, WorkflowTimeoutError
 from workflows.events import (
@@ -292,6 +292,11 @@ def specs(tier: str) -> list[Spec]:
         Spec("timeout_vs_cancel", {"cause": "timeout_vs_cancel"}, lambda: wf_chain(1), scripts=cancel_script,
              wf_kw={"timeout": 10.0}),
         Spec("timeout_during_retry_delay", {"cause": "timeout"}, lambda: wf_raise(pol3()), wf_kw={"timeout": 10.0}),
+        # waits with a timeout: answered (the stale timer fires later, while the run is still alive) or timing out, on the way to the StopEvent
+        Spec("waits_with_timeouts", {"cause": "normal_stop", "timers": "waiter_timeouts"}, lambda: wf_wait(2, n=2, timeout=5.0),
+             scripts=resp_scripts(2), max_dev=(3 if tier == "quick" else 6)),
+        Spec("waits_with_timeouts_vs_run_timeout", {"cause": "timeout", "timers": "waiter_timeouts"}, lambda: wf_wait(1, n=2, timeout=5.0),
+             scripts=resp_scripts(2), wf_kw={"timeout": 7.0}, max_dev=(3 if tier == "quick" else 6)),
         # second and later runs of one context: a run continued from a finished run's context, a run resumed from a snapshot
         Spec("continued_run", {"cause": "normal_stop", "history": "continued"}, lambda: wf_early_stop(2, 1), continue_runs=1,
              max_dev=(3 if tier == "quick" else 5)),
@@ -315,7 +320,7 @@ def specs(tier: str) -> list[Spec]:
 
 RULE = ("outcome causes (normal/custom stop, stop racing running workers, raise with/without retry, raise in a "
         "@catch_error handler, non-event return, failing user retry code, cancel and timeout at every quiescent "
-        "point) x all schedules; each maximal execution is checked for exactly one outcome, one matching terminal "
+        "point, waits with timeouts that are answered or time out on the way to the end) x all schedules; each maximal execution is checked for exactly one outcome, one matching terminal "
         "event, nothing after it and a terminating stream consumer; non-trivial = at least one schedule deviation")
 
 
